@@ -19,7 +19,8 @@ Record case05 := mkCase05 {
   j5_embedded : bool;                    (* loaded without a type system argument: also read under the embedded %TYPES *)
   j5_doc : json;
   j5_canon : ccas;
-  j5_vars : list (json * ccas) }.
+  j5_vars : list (json * ccas);
+  j5_once : bool }.                      (* observed by identity: every load made one object per id *)
 
 Definition res_map {A B} (f : A -> B) (r : res A) : res B := match r with Ok a => Ok (f a) | Err e => Err e | OutOfFuel => OutOfFuel end.
 Definition res_res_eqb (a b : res ccas) : bool :=
@@ -29,6 +30,8 @@ Definition read_ok (s : schema) (embedded : bool) (d : json) (want : ccas) : boo
   res_ccas_eqb (res_map with_initial_view (denote_json std_lex s d)) want
   (* the reader mechanism is modelled for documents that file every entry under an id of its own (one fixture does not) *)
   && (if doc_ids_distinctb d then res_ccas_eqb (load_json std_lex s d) want else true)
+  (* the reader makes one object per entry (Json.load_made), also for a byte array it fetches ahead for a sofa *)
+  && (if doc_ids_distinctb d then made_once s d else true)
   && (if embedded then
         match parse_jtypes d with
         | Ok jts => res_ccas_eqb (res_map with_initial_view (denote_json std_lex (schema_of_jtypes builtin_schema jts) d)) want
@@ -38,6 +41,7 @@ Definition read_ok (s : schema) (embedded : bool) (d : json) (want : ccas) : boo
 Definition check_case05 (c : case05) : bool :=
   let s := full_schema (j5_user c) in
   (if j5_strict c then doc_ok_json std_lex s (j5_doc c) && forallb (fun vw => doc_ok_json std_lex s (fst vw)) (j5_vars c) else true)
+  && j5_once c
   && read_ok s (j5_embedded c) (j5_doc c) (j5_canon c)
   && forallb (fun vw => read_ok s (j5_embedded c) (fst vw) (snd vw)
                         && ccas_eqb (snd vw) (j5_canon c)
